@@ -25,6 +25,8 @@ def run(tier, seed):
         gs = ctx.simulate("MC_Hist1D_quick", "MC_Hist1D_sim", num=1500, depth=9)
         for pe, we, sp in [("dyadic", "int", 0), ("ulp", "half", 1), ("decimal", "npint", 2)]:
             ctx.replay(gs, Hist1DAdapter(POS[pe], WTS[we], spelling=sp), VIEW, label=f"1D-sim:{pe}/{we}/sp{sp}")
+    from props import trace_h1
+    trace_h1.run_part(ctx, tier, seed_offset=23)       # engine T: recorded float executions validated by TLC
     nd_part(ctx, tier)
     ctx.assumptions = ["binning depends only on the order of values and edges (embedding fan-out)",
                        "histories are bounded (see tlc_runs), batches <= 2 (quick) / 3 (thorough) entries"]
